@@ -256,9 +256,10 @@ PREC = {"or": 5, "and": 7, "==": 9, "!=": 9, "<": 11, "<=": 11, ">": 11, ">=": 1
 class Layout:
     """Source of layout choices. rng=None => canonical layout (every choice 0)."""
 
-    def __init__(self, rng=None, comments=False):
+    def __init__(self, rng=None, comments=False, chains=True):
         self.rng = rng
         self.comments = comments
+        self.chains = chains        # may a call chain be broken across lines (off where lines are compared, C12)
         self.ncomments = 0
         self.choices = 0
 
@@ -661,6 +662,16 @@ class Renderer:
                 return False
         return True
 
+    def _simple_free_arg(self, a):
+        x = a["e"] if a["k"] == "spread" else a
+        if x["k"] not in ("id", "int", "str", "bool", "null", "list", "tuple", "flt"):
+            return False
+        if x["k"] == "int" and x["v"] < 0 or x["k"] == "flt" and x["n"] < 0:
+            return False
+        if x["k"] == "tuple" and a["k"] == "spread":
+            return False
+        return True
+
     def free_call(self, n):
         args = [self.arg(a) for a in n["args"]]
         if n["args"][0]["k"] != "spread" and self.L.pick(2, 0.5):
@@ -677,6 +688,42 @@ class Renderer:
         k = n["k"]
         pad1 = self.ind * (depth + 1)
         pad0 = self.ind * depth
+        if k == "mcall" and n["c"]["k"] == "mcall" and self.L.chains and self.L.pick(2, 0.6) == 0:
+            # guide (Iterators, Function Piping): a call chain broken across indented lines, one call per line, calls
+            # without parentheses where the arguments allow it (an inline function last); optionally the whole chain
+            # inside redundant parentheses
+            links = []
+            x = n
+            while x["k"] == "mcall":
+                links.append(x)
+                x = x["c"]
+            links.reverse()
+            wrap = self.L.pick(2, 0.5) == 0
+            padl = self.ind * (depth + (2 if wrap else 1))
+            out = self.recv(x)
+            ok = True
+            for l in links:
+                args = l["args"]
+                simple = all(self._simple_free_arg(a) or (i == len(args) - 1 and a["k"] == "fn" and self.is_inline(a) and not a.get("gen"))
+                             for i, a in enumerate(args))
+                if any(a["k"] == "fn" and not self.is_inline(a) for a in args):
+                    ok = False
+                    break
+                # inside brackets a comma belongs to the brackets: a call without parentheses takes one argument there
+                if args and simple and (len(args) == 1 or not wrap) and self.L.pick(2, 0.6) == 0:
+                    def free_arg(a):
+                        if a["k"] == "fn":      # last argument: the function's body runs to the end of the line
+                            return "%s %s" % (self.fn_head(a), self.expr(self.single(a["body"])))
+                        return self.arg(a)
+                    call = ".%s %s" % (l["m"], ", ".join(free_arg(a) for a in args))
+                else:
+                    call = ".%s(%s)" % (l["m"], ", ".join(self.arg(a) for a in args))
+                out += "\n" + CONT + padl + call
+            if ok:
+                if wrap:
+                    first, rest = out.split("\n", 1)
+                    return "(\n" + CONT + pad1 + first + "\n" + rest + "\n" + CONT + pad0 + ")"
+                return out
         if k in ("app", "core", "mcall") and n["args"] and all(a["k"] != "fn" or self.is_inline(a) for a in n["args"]):
             if k == "app":
                 head = self.recv(n["f"])
